@@ -13,7 +13,8 @@ Definition today : tables :=
   {| tb_auth := auth_sets; tb_ctl := ctl_sites; tb_enc := enc_sites; tb_calls := call_keys;
      tb_lits := msg_lits; tb_writes := clear_writes; tb_flows := marshal_flows; tb_crw := crypto_rw_shape;
      tb_sniff := sniff_sites; tb_listeners := listener_calls;
-     tb_tls_uses := tls_uses; tb_tls_origin := tls_origin_args; tb_tls_server_calls := sniff_tls_server_calls |}.
+     tb_tls_uses := tls_uses; tb_tls_origin := tls_origin_args; tb_tls_server_calls := sniff_tls_server_calls;
+     tb_sniff_shape := GenWire.sniff_shape_today |}.
 
 (* the sniff with today's translated head byte constant *)
 Definition sniff_today := Sniff.sniff_with GenWire.frp_tls_head_byte.
@@ -252,6 +253,15 @@ Proof.
   intros c h l configured. exact (forced_no_session_any_listener today c h l configured (facts_sniff today C05_today_facts_ok)).
 Qed.
 Print Assumptions C05_forced_no_session_without_tls_any_listener.
+
+(* a peer that stays silent past the sniff's wait, or closes, gets nothing interpreted, for either force value:
+   the read error is the function's only exit before the switch (reflective over t5w's shape of the function:
+   any other return before the switch, e.g. "on deadline expiry hand the connection on", gives SsUnknown) *)
+Theorem C05_silent_peer_gets_nothing : forall f,
+  tb_sniff_shape today = SsOk /\
+  Sniff.sniff_stream f [] = (Sniff.ReadErr, []) /\ Sniff.is_err Sniff.ReadErr = true.
+Proof. intros f. split; [vm_compute; reflexivity|exact (silent_peer_gets_nothing f)]. Qed.
+Print Assumptions C05_silent_peer_gets_nothing.
 
 (* the TLS identity rule on EVERY listener frps opens on the network (tcp, tls-mux, kcp, websocket — all served by
    HandleListener and its sniff — and quic): the tls.Config that terminates TLS there is the object built by
